@@ -188,12 +188,27 @@ func (ex *Ex) assumeParamFacts(st *State, t *T, ty types.Type) {
 		if f := ex.ifaceTypeFact(t, ty); f != nil {
 			st.Assume(f)
 		}
+		st.Assume(App("alloc0", SBool, ValOf(t)))
 	}
 }
 
 func (ex *Ex) checkPosts(fr *Frame, st *State, results []Val, opts VerifyOpts) {
 	ctr := fr.Ctr
 	fn := fr.Fn
+	if opts.Vacuity && ex.covers < 6 {
+		// end-of-path canary: the facts accumulated along some returning path (with all background
+		// axioms and instantiations) must be satisfiable. Individual paths may be infeasible; the
+		// canary is refuted only if every sampled returning path is refuted.
+		ex.covers++
+		name := fr.Name + "#vacuity.exit"
+		o := ex.Obls[name]
+		if o == nil {
+			o = &Obligation{Name: name, Func: fr.Name, Kind: "vacuity", Text: "facts along some returning path are satisfiable (canary must not be refuted on every path)", ExpectFail: true}
+			ex.Obls[name] = o
+			ex.OblOrder = append(ex.OblOrder, name)
+		}
+		o.Queries = append(o.Queries, &Query{PC: append([]*T(nil), st.pc...), Goal: tFalse, Heap: copyHeap(st.heap)})
+	}
 	var svs []SV
 	for i, r := range results {
 		t := fn.Signature.Results().At(i).Type()
@@ -367,6 +382,10 @@ func (w *World) RunLemma(lem *Contract, opts VerifyOpts) (res *FuncResult) {
 			ex.assumeParamFacts(st, v, ty.G)
 			if _, ok := ty.G.Underlying().(*types.Pointer); ok {
 				ex.assumeTypeInvIf(fr, st, ty.G, v, tTrue)
+			}
+			if isIface(ty.G) {
+				// objects reachable from the lemma's inputs exist before anything the lemma allocates
+				st.Assume(App("alloc0", SBool, ValOf(v)))
 			}
 		}
 	}
